@@ -40,6 +40,8 @@ pub struct GenCfg {
     pub ramchip_permille: u32,
     pub hw: bool,
     pub asm_menu: bool,
+    /// statements that put the low byte of an array address into a register (differential checks only)
+    pub addr_low_byte: bool,
     pub long_bodies: bool,
     pub opt_stress: bool,
     pub inline_permille: u32,
@@ -77,6 +79,7 @@ impl Default for GenCfg {
             ramchip_permille: 100,
             hw: false,
             asm_menu: false,
+            addr_low_byte: false,
             long_bodies: false,
             opt_stress: false,
             inline_permille: 150,
@@ -1804,7 +1807,93 @@ impl<'g, 'r> ProgGen<'g, 'r> {
         let arrs = self.arrays(fc, Some(true), true);
         let px = fc.protected.contains("X");
         let py = fc.protected.contains("Y");
-        match self.g.below(32) {
+        match self.g.below(if self.cfg.addr_low_byte { 41 } else { 38 }) {
+            38 | 39 | 40 => {
+                // the low byte of an array address (a constant that only the assembler knows) compared with
+                // a number: the optimizer cannot decide the comparison from the spelling of the two operands
+                let reg = if !px && (py || self.g.chance(1, 2)) { "X" } else if !py { "Y" } else { return vec![self.assign_stmt(fc)] };
+                if arrs.is_empty() {
+                    return vec![self.assign_stmt(fc)];
+                }
+                let (ar, _, _) = self.g.pick(&arrs).clone();
+                // a guess of the address: zero-page variables are laid out from $80 in declaration order
+                let mut guess = 0x80i32;
+                for gl in &self.globals {
+                    if gl.name == ar {
+                        break;
+                    }
+                    if gl.mem == MemQual::Default {
+                        let w = if gl.ty.bits() == 16 { 2 } else { 1 };
+                        guess += match &gl.kind {
+                            VarKind::Scalar => w,
+                            VarKind::Array(n) => w * *n as i32,
+                            _ => 0,
+                        };
+                    }
+                }
+                let op = if self.g.chance(1, 2) { BinOp::Ne } else { BinOp::Eq };
+                let mut out = vec![];
+                // the register is loaded again before each comparison (a label forgets what is known)
+                for d in [0, 1, -1, 2] {
+                    out.push(Stmt::Expr(Expr::assign(LValue::Var(reg.into()), Expr::AddrOf(ar.clone()))));
+                    out.push(Stmt::If(
+                        Expr::bin(op, Expr::var(reg), Expr::lit(((guess + d) & 255).max(0))),
+                        Box::new(Stmt::Expr(Expr::IncDec(true, false, LValue::Var(a.clone())))),
+                        None,
+                    ));
+                }
+                out
+            }
+            35 | 36 | 37 => {
+                // a register is loaded with a constant, something else sets the flags, the same constant is
+                // loaded again (a load the optimizer finds redundant), the register is stored (no flags) and
+                // then tested: the flags of the second load are needed although no branch follows it directly
+                let reg = if !px && (py || self.g.chance(1, 2)) { "X" } else if !py { "Y" } else { return vec![self.assign_stmt(fc)] };
+                let other = if reg == "X" { "Y" } else { "X" };
+                if fc.protected.contains(other) || arrs.is_empty() {
+                    return vec![self.assign_stmt(fc)];
+                }
+                let (ar, _, n) = self.g.pick(&arrs).clone();
+                let kk = self.g.below(n.min(3)) as i32;
+                let elem = Expr::Lv(LValue::Index(ar, Box::new(Expr::var(reg))));
+                let t = if self.g.chance(1, 2) { Expr::var(reg) } else { Expr::Un(UnOp::LNot, Box::new(Expr::var(reg))) };
+                vec![
+                    Stmt::Expr(Expr::assign(LValue::Var(reg.into()), Expr::lit(kk))),
+                    Stmt::Expr(Expr::assign(LValue::Var(other.into()), elem)),
+                    Stmt::Expr(Expr::assign(LValue::Var(reg.into()), Expr::lit(kk))),
+                    Stmt::Expr(Expr::assign(LValue::Var(a.clone()), Expr::var(reg))),
+                    Stmt::If(t, Box::new(Stmt::Expr(Expr::assign(LValue::Var(b.clone()), Expr::lit(k + 1)))), None),
+                ]
+            }
+            32 | 33 | 34 => {
+                // a loop counted in a register from a constant, whose first test is decided at compile time
+                // (and folded by the optimizer); the body starts by comparing the same register with a
+                // constant: what was known before the loop is not known at its head
+                let reg = if !px && (py || self.g.chance(1, 2)) { "X" } else if !py { "Y" } else { return vec![self.assign_stmt(fc)] };
+                let c0 = *self.g.pick(&[0, 0, 1, 2, 5]);
+                let n = c0 + 2 + self.g.below(3) as i32;
+                let cmpv = if self.g.chance(1, 2) { c0 } else { c0 + 1 };
+                let op = if self.g.chance(1, 2) { BinOp::Eq } else { BinOp::Ne };
+                let first = Stmt::If(
+                    Expr::bin(op, Expr::var(reg), Expr::lit(cmpv)),
+                    Box::new(Stmt::Expr(Expr::IncDec(true, false, LValue::Var(a.clone())))),
+                    None,
+                );
+                let second = Stmt::Expr(Expr::assign(LValue::Var(b.clone()), Expr::lit(k)));
+                let body = Stmt::Block(vec![first, second]);
+                let cond = Expr::bin(BinOp::Ne, Expr::var(reg), Expr::lit(n));
+                let upd = Expr::IncDec(true, self.g.chance(1, 2), LValue::Var(reg.into()));
+                if self.g.chance(1, 2) {
+                    vec![Stmt::For(Some(Expr::assign(LValue::Var(reg.into()), Expr::lit(c0))), Some(cond), Some(upd), Box::new(body))]
+                } else {
+                    let mut v = match body {
+                        Stmt::Block(v) => v,
+                        s => vec![s],
+                    };
+                    v.push(Stmt::Expr(upd));
+                    vec![Stmt::Expr(Expr::assign(LValue::Var(reg.into()), Expr::lit(c0))), Stmt::While(cond, Box::new(Stmt::Block(v)))]
+                }
+            }
             29 | 30 | 31 => {
                 // a subtraction without borrow leaves the carry set, then a 16-bit value is composed from
                 // two bytes: the byte pass that adds nothing must not let the old carry into the other one
@@ -1879,7 +1968,15 @@ impl<'g, 'r> ProgGen<'g, 'r> {
                 };
                 let others: Vec<String> = v8.iter().map(|x| x.0.clone()).filter(|n| *n != a && *n != b && *n != tv).collect();
                 let c = if others.is_empty() { b.clone() } else { self.g.pick(&others).clone() };
-                out.push(Stmt::If(cond, Box::new(Stmt::Expr(Expr::assign(LValue::Var(c), Expr::lit(k + 1)))), None));
+                // the body may start by testing the variable again: it has changed since the flags were set
+                let inner = Stmt::Expr(Expr::assign(LValue::Var(c), Expr::lit(k + 1)));
+                let body = if self.g.chance(1, 2) {
+                    let t = if self.g.chance(1, 2) { Expr::var(&tv) } else { Expr::Un(UnOp::LNot, Box::new(Expr::var(&tv))) };
+                    Stmt::Block(vec![Stmt::If(t, Box::new(inner), None)])
+                } else {
+                    inner
+                };
+                out.push(Stmt::If(cond, Box::new(body), None));
                 out
             }
             20 | 21 | 22 => {
